@@ -155,7 +155,11 @@ def run_tlc(item, wd, workers=4, cap=1800, simulate=None, cover=0):
            '-metadir', os.path.join(sd, 'md'), '-config', 'mc.cfg'] + ([] if (simulate and not simulate.get('dump')) else ['-dumpTrace', 'json', cex])
     if simulate:
         cmd += ['-simulate', 'num=%d' % simulate['num'], '-depth', str(simulate['depth']), '-seed', str(simulate['seed'])]
-    cmd += [item['module'] + '.tla']
+    if item.get('root'):
+        open(os.path.join(sd, item['root'][0] + '.tla'), 'w').write(item['root'][1])
+        cmd += [item['root'][0] + '.tla']
+    else:
+        cmd += [item['module'] + '.tla']
     t0 = time.time()
     try:
         r = subprocess.run(cmd, cwd=sd, stdout=subprocess.PIPE, stderr=subprocess.STDOUT, text=True, timeout=cap)
@@ -240,12 +244,26 @@ def cover_behaviours(item, wd, out_file, cap=1500, mod=1):
     r.update(schedules_printed=len(uniq), leaves=len(leaves), events=sum(len(s) for s in leaves), probes=nprobe, states_probed=len(probed))
     return r
 
-def net_cfg(name, byz=(2,), h=2, maxview=1, amev=False, dev=True, weaken=(), invs=('Agreement',), n=4, maxsteps=60):
+def skel_tla(skel):
+    """An attack skeleton (list of (node, kind[, from, view[, content]])) as a TLA+ sequence of records."""
+    rows = []
+    for st in skel:
+        n, k = st[0], st[1]
+        frm = st[2] if len(st) > 2 else 0
+        v = st[3] if len(st) > 3 else 0
+        c = st[4] if len(st) > 4 else 0
+        rows.append('[n |-> %d, k |-> "%s", from |-> %d, v |-> %d, c |-> %d]' % (n, k, frm, v, c))
+    return '<<' + ', '.join(rows) + '>>'
+
+def net_cfg(name, byz=(2,), h=2, maxview=1, amev=False, dev=True, weaken=(), invs=('Agreement',), n=4, maxsteps=60, skel=()):
     b = lambda v: 'TRUE' if v else 'FALSE'
     txt = ('SPECIFICATION Spec\nCONSTANTS\n  N = %d\n  H = %d\n  MaxView = %d\n  Byz = {%s}\n  AmevOn = %s\n  DevEarlyCommitUnverified = %s\n'
-           '  Weaken = {%s}\n  Emit = FALSE\n  EmitLen = 0\n  MaxSteps = %d\nCONSTRAINT Bound\nVIEW View\nINVARIANTS %s\nCHECK_DEADLOCK FALSE\n'
-           % (n, h, maxview, ', '.join(str(x) for x in byz), b(amev), b(dev), ', '.join('"%s"' % w for w in weaken), maxsteps, ' '.join(invs)))
-    return dict(name=name, module='MC_Net', cfg=txt)
+           '  Weaken = {%s}\n  Emit = FALSE\n  EmitLen = 0\n  MaxSteps = %d\n  Skel <- %s\nCONSTRAINT Bound\nVIEW View\nINVARIANTS %s\nCHECK_DEADLOCK FALSE\n'
+           % (n, h, maxview, ', '.join(str(x) for x in byz), b(amev), b(dev), ', '.join('"%s"' % w for w in weaken), maxsteps, 'SkelDef' if skel else 'NoSkel', ' '.join(invs)))
+    it = dict(name=name, module='MC_Net', cfg=txt)
+    if skel:   # the skeleton is a definition of a generated root module (a configuration file cannot hold sequences of records)
+        it['root'] = ('MC_NetSkel', '---- MODULE MC_NetSkel ----\nEXTENDS MC_Net\nSkelDef == %s\n====\n' % skel_tla(skel))
+    return it
 
 ABS_CFGS = {'quick': [('{0, 1, 2, 3}', '{3}'), ('{0, 1, 2, 3, 4}', '{1}'), ('{0, 1, 2}', '{}'), ('{0}', '{}')],
             'thorough': [('{0, 1, 2, 3}', '{3}'), ('{0, 1, 2, 3, 4}', '{1}'), ('{0, 1, 2, 3, 4, 5}', '{0}'), ('{0, 1, 2, 3, 4, 5, 6}', '{5, 6}'), ('{0, 1, 2}', '{}'), ('{0}', '{}')]}
@@ -332,6 +350,8 @@ def item_key(item, extra=''):
     for f in ['DbftNode.tla', item['module'] + '.tla'] + (['MC_Node.tla'] if item['module'] == 'MC_NodeCover' else []):
         h.update(open(os.path.join(vlib.VERIF, 'spec', f), 'rb').read())
     h.update(item['cfg'].encode()); h.update(extra.encode())
+    if item.get('root'):
+        h.update(item['root'][1].encode())
     return h.hexdigest()[:16]
 
 def gen_lookup(fname):
